@@ -99,6 +99,16 @@ def run_chunker_check(prop, tier):
             traces.append(tr)
             trace_args[tr] = ["--mode", "hugepair", "--alg", a, "--w", str(w), "--bits", str(b), "--seed", str(seed())]
             procs.append(subprocess.Popen(["timeout", "2400", VH, "chunker-l1"] + trace_args[tr] + ["--out", tr], stdout=subprocess.PIPE, stderr=subprocess.PIPE))
+    # C09's rule at wide filters and wide windows, hash-agnostic (rule LOCALITY of ChunkerTrace.tla): 6 MiB streams, min 0, max beyond the stream;
+    # C10 shares it (a boundary that depends on bytes outside its window is exactly what keeps two streams from resynchronising)
+    loc = [(a, w, b) for a in ("rollsum", "buzhash") for (w, b) in ((64, 17), (16, 20), (1500, 13), (64, 13), (5000, 17), (32, 24))]
+    if tier == "quick":
+        loc = [c for i, c in enumerate(loc) if c[1:] in ((64, 17), (1500, 13), (16, 20), (5000, 17))]
+    for (a, w, b) in loc:
+        tr = os.path.join(workdir, "locality_%s_%d_%d.ndjson" % (a, w, b))
+        traces.append(tr)
+        trace_args[tr] = ["--mode", "locality", "--alg", a, "--w", str(w), "--bits", str(b), "--seed", str(seed())]
+        procs.append(subprocess.Popen(["timeout", "1200", VH, "chunker-l1"] + trace_args[tr] + ["--out", tr], stdout=subprocess.PIPE, stderr=subprocess.PIPE))
     for p in procs:
         o, e = p.communicate()
         if p.returncode != 0:
